@@ -47,3 +47,11 @@ Theorem C14_reduced_state_quadratic_form :
   = \sum_i p i * (conj ((adj conj (psi i) *m x) 0 0) * (adj conj (psi i) *m x) 0 0).
 Proof. exact: rho_ens_quadratic_form. Qed.
 Print Assumptions C14_reduced_state_quadratic_form.
+
+(* the purification vector handed to the inner initializer has squared norm one (so it passes the validation of C16) *)
+Theorem C14_purification_normalised :
+  forall (F : fieldType) (conj : {rmorphism F -> F}) (d k : nat) (psi : 'I_k -> 'cV[F]_d) (s p : 'I_k -> F),
+  (forall i, s i * conj (s i) = p i) -> (forall i, adj conj (psi i) *m psi i = 1%:M) -> \sum_i p i = 1 ->
+  \tr (Psi psi s *m adj conj (Psi psi s)) = 1.
+Proof. exact: purification_normalised. Qed.
+Print Assumptions C14_purification_normalised.
